@@ -2,6 +2,9 @@ import VncModel.Client.Requests
 import VncModel.Client.RefineHex2
 import VncModel.Client.Copy
 import VncModel.Client.Reader
+import VncModel.Client.RefineTrle
+import VncModel.Client.RefineTight
+import VncModel.Client.CPixSel
 /-!
 # C07 — LibVNCClient reconstructs exactly what a conforming server encoded  (property theorems)
 
@@ -30,21 +33,31 @@ The *specification* is `VncModel.Enc.Spec` (C01) plus `Client/SpecExtra.lean` (s
 * `read_buffering_invariant`, `read_segmentation_independent`.
 * `client_requests_wellformed`.
 
-## Partial (`_partial` or not proved; covered by the correspondence run only)
-* TRLE tiles: modelled (Decode.lean `trleTile`) and compared with the code and with
-  `Spec.decodeTRLE` on every run, but the refinement theorem is not proved.
-  -- full statement:  ∀ cp fb st cst …, TrleRel prev cst → decodeTRLETile cp tw th prev bs = some ((px, prev'), rest) →
-  --   ∃ cst', trleTile cp rawBuf fb cst x y tw th bs = some ((blit fb x y tw th px, cst'), rest) ∧ TrleRel prev' cst'
-* Tight: the client model reuses the specification's filter arithmetic (`tightFilterRows`); what
-  is client-specific (compact length, 12-byte rule, row accounting, stream ids) is modelled and
-  compared, not proved against `Spec.decodeTight`.
-* Zlib/Ultra/ZRLE containers: `inflate`/LZO are parameters (oracle queue); the theorems are about
-  the data after decompression.  ZRLE data must fit `2·w·h·cpixel` bytes (the client's buffer):
-  hypothesis of `zrle_tiles`, enforced in the generator, documented in docs/C07.md.
-* CPIXEL selection: `clientCPix f = f.cpix` is checked by `decide` on the format catalogue below
-  (a test), not proved for all formats; it is FALSE for depth > 24 (known finding `cpixel-depth`):
-  the refinement theorems take the CPIXEL variant `cp` as a parameter, i.e. they carry the
-  hypothesis `depth ≤ 24 ∨ ¬fits3` exactly through `clientCPix f = f.cpix`.
+## Also proved in round 2 (nothing is `_partial` any more)
+* `client_decoder_refines_spec_trle_tile` / `…_trle`: every TRLE tile sub-encoding incl. palette
+  reuse 127/129 with the `last_type` bookkeeping, the tile loop, the assembled rectangle.  Valid
+  streams = accepted by the strict TRLE decoder (palette forgotten after a solid tile,
+  SpecExtra.lean), on which `Spec.decodeTRLE` yields the same pixels.
+* `client_decoder_refines_spec_tight` / `…_tight_session`: fill, copy, palette (2 colours: 1-bit
+  padded rows; 3‥256: bytes), gradient; compact length; 12-byte rule; stream selection `t % 4`;
+  `inflate` is a parameter on both sides (stream resets = low 4 control bits are the
+  decompressor's business in `Spec.decodeTight` (`tightResetMask`) and in the model; that the C
+  code resets exactly those streams, also on Fill/JPEG rectangles, is checked by the deterministic
+  sessions of every run).
+* `client_cpixel_selection`: `clientCPix f = f.cpix` for all 32-bpp true-colour formats with
+  channel maxima `2^k-1` inside 32 bits, under `depth ≤ 24 ∨ ¬ (fitsLS ∨ fitsMS)`; for the
+  complementary case the code deviates from the RFC (known finding `cpixel-depth`, example below).
+* `client_decoder_refines_spec_zrle_data`: the ZRLE tile loop against `Spec.decodeZRLEData`
+  without any side condition on tile lengths.
+
+## Stated limits of the library (hypotheses of the theorems; RFC-valid but perverse streams)
+* CoRRE: sub-rectangle count ≤ `RFB_BUFFER_SIZE/(4+bytespp)`; ZRLE: inflated tile data ≤
+  `2·w·h·cpixel` bytes (container level, `handleZRLE`); Tight: rows fit the decompression window
+  (`hrow`), gradient rows ≤ 2048 pixels, no one-colour palette.
+* Hextile/TRLE: "strict" streams (see above) — where the RFC is silent the field behaviour is used.
+* Zlib/Ultra/ZRLE/Tight: `inflate`/LZO/JPEG are parameters (trusted codecs).
+* `SetColourMapEntries` is not consumed by the library; padding bits of pixels are masked in all
+  comparisons.
 -/
 namespace VncModel.Props.C07
 open VncModel.Client
@@ -118,6 +131,69 @@ theorem client_decoder_refines_spec_copyrect (fb : FB) (x y w h : Nat) (bs : Byt
     | none => rfl
     | some q => obtain ⟨sy, r⟩ := q; rfl
 
+/-- the tile loop of `HandleZRLE` against `Spec.decodeZRLEData` (no side conditions) -/
+theorem client_decoder_refines_spec_zrle_data (cp : CPix) (fb : FB) (rx ry rw rh : Nat) (data : Bytes)
+    (px : List Pixel) (rest : Bytes) (hW : rx + rw ≤ fb.w)
+    (hsp : decodeZRLEData ⟨rw, rh⟩ cp data = some (px, rest)) :
+    zrleTiles cp rx ry (tileGrid 64 ⟨rw, rh⟩) fb data = (blit fb rx ry rw rh px, true) := by
+  simp only [decodeZRLEData] at hsp
+  cases ht : decodeZRLETiles cp (tileGrid 64 ⟨rw, rh⟩) data with
+  | none => simp [ht] at hsp
+  | some q =>
+    obtain ⟨pxs, r⟩ := q
+    simp only [ht, Option.map_some, Option.some.injEq, Prod.mk.injEq] at hsp
+    rw [← hsp.1]
+    exact client_decoder_refines_spec_zrle_tiles cp fb rx ry rw rh data pxs r hW ht (zrleTiles_lengths cp _ _ _ _ ht)
+
+/-- TRLE, one tile, every sub-encoding (raw, solid, packed 2‥16, plain RLE, palette RLE, reuse of
+the previous palette packed / RLE) -/
+theorem client_decoder_refines_spec_trle_tile (cp : CPix) (rawBuf : Nat) (fb : FB) (st : TrleSt) (x y tw th : Nat)
+    (prev : List Pixel) (bs : Bytes) (px prev' : List Pixel) (rest : Bytes)
+    (hrel : TrleRel prev st) (hW : x + tw ≤ fb.w) (hH : y + th ≤ fb.h)
+    (hpalsz : st.pal.size = trlePaletteCells) (hbud : tw * th / 255 + cp.size + 2 ≤ rawBuf)
+    (hsp : decodeTRLETile cp tw th prev bs = some ((px, prev'), rest)) :
+    ∃ st', trleTile cp rawBuf fb st x y tw th bs = some ((blit fb x y tw th px, st'), rest) ∧
+      TrleRel (trleStrictAfter (bs.headD 0).toNat prev') st' ∧ st'.pal.size = trlePaletteCells :=
+  trleTile_refines cp rawBuf fb st x y tw th prev bs px prev' rest hrel hW hH hpalsz hbud hsp
+
+/-- TRLE, whole rectangle -/
+theorem client_decoder_refines_spec_trle (cp : CPix) (rawBuf : Nat) (fb : FB) (rx ry rw rh : Nat) (bs : Bytes)
+    (px : List Pixel) (rest : Bytes) (hraw : cp.size + 3 ≤ rawBuf) (hW : rx + rw ≤ fb.w) (hH : ry + rh ≤ fb.h)
+    (hsp : decodeTRLEStrict ⟨rw, rh⟩ cp bs = some (px, rest)) :
+    clientTRLE cp rawBuf fb rx ry rw rh bs = some (blit fb rx ry rw rh px, rest) ∧
+    decodeTRLE ⟨rw, rh⟩ cp bs = some (px, rest) :=
+  clientTRLE_refines_spec cp rawBuf fb rx ry rw rh bs px rest hraw hW hH hsp
+
+/-- Tight: `HandleTightBPP` obtains exactly the pixels of `Spec.decodeTight`, for every `inflate` -/
+theorem client_decoder_refines_spec_tight (f : PixFmt) (infl : Nat → Bytes → Option Bytes) (w h : Nat) (bs : Bytes)
+    (px : List Pixel) (rest : Bytes) (hbpp : f.bpp = 8 * f.bytespp)
+    (hrow : ∀ bits, bits = 1 ∨ bits = 8 ∨ bits = 24 ∨ bits = f.bpp →
+      (w * bits + 7) / 8 ≤ rfbBufferSize * bits / (bits + f.bpp) / 4 * 4)
+    (hgrad : tightIsGradient bs = true → w * 3 ≤ tightThisRowCells)
+    (hpal1 : tightOneColourPalette bs = false)
+    (hinfl0 : ∀ id dd, infl id [] = some dd → dd.length < 12)
+    (hsp : decodeTight {} infl f ⟨w, h⟩ bs = some (px, rest)) :
+    ∃ used, tightDecode f infl w h bs = .ok (px, used, rest) :=
+  tightDecode_refines f infl w h bs px rest hbpp hrow hgrad hpal1 hinfl0 hsp
+
+/-- … and in a session: the framebuffer holds those pixels in the rectangle -/
+theorem client_decoder_refines_spec_tight_session (s : St) (x y w h : Nat) (bs : Bytes) (px : List Pixel) (rest : Bytes)
+    (hW : x + w ≤ s.fb.w) (hH : y + h ≤ s.fb.h) (hbpp : s.fmt.bpp = 8 * s.fmt.bytespp)
+    (hrow : ∀ bits, bits = 1 ∨ bits = 8 ∨ bits = 24 ∨ bits = s.fmt.bpp →
+      (w * bits + 7) / 8 ≤ rfbBufferSize * bits / (bits + s.fmt.bpp) / 4 * 4)
+    (hgrad : tightIsGradient bs = true → w * 3 ≤ tightThisRowCells)
+    (hpal1 : tightOneColourPalette bs = false)
+    (hinfl0 : ∀ id dd, s.tightOracle id [] = some dd → dd.length < 12)
+    (hsp : decodeTight {} s.tightOracle s.fmt ⟨w, h⟩ bs = some (px, rest)) :
+    ∃ s', handleTight s x y w h bs = .ok (s', rest) ∧ s'.fb = blit s.fb x y w h px :=
+  handleTight_refines s x y w h bs px rest hW hH hbpp hrow hgrad hpal1 hinfl0 hsp
+
+/-- the CPIXEL layout chosen by the ZRLE/TRLE dispatch is the RFC's, under `depth ≤ 24 ∨ ¬fits3` -/
+theorem client_cpixel_selection (f : PixFmt) (htc : f.trueColour = true)
+    (hr : ChanOK f.rMax f.rShift) (hg : ChanOK f.gMax f.gShift) (hb : ChanOK f.bMax f.bShift)
+    (hdepth : f.depth ≤ 24 ∨ ¬ (fitsLS f ∨ fitsMS f)) : clientCPix f = f.cpix :=
+  clientCPix_eq_spec f htc hr hg hb hdepth
+
 /-! ## copyrect_memmove -/
 
 /-- for every relative position of source and destination (8 directions of overlap, no overlap,
@@ -190,6 +266,24 @@ example : decodeZRLETile (.full 1) 3 2 [2, 10, 20, 0b10100000, 0b01000000, 0xEE]
 
 /-- a ZRLE palette-RLE tile with a run whose length byte sequence crosses 255 is accepted -/
 example : (decodeZRLETile (.full 1) 64 5 ([130, 1, 2, 128, 255, 44, 1, 129, 18])).isSome = true := by decide
+
+/-- a TRLE stream: packed tile then reuse of its palette, accepted by the strict decoder -/
+example : (decodeTRLEStrict ⟨20, 3⟩ (.full 1)
+    ([2, 10, 20, 0xAA, 0xAA, 0x55, 0x55, 0xFF, 0x00, 127, 0xA0, 0x50, 0xF0])).isSome = true := by decide
+
+/-- Tight hypotheses are satisfiable: rgb888 at 32 bpp, a 100-pixel wide rectangle -/
+example : ∀ bits, bits = 1 ∨ bits = 8 ∨ bits = 24 ∨ bits = 32 →
+    (100 * bits + 7) / 8 ≤ rfbBufferSize * bits / (bits + 32) / 4 * 4 := by
+  intro bits h; rcases h with rfl | rfl | rfl | rfl <;> decide
+
+/-- a Tight fill rectangle and a 2-colour palette rectangle below the 12-byte limit decode by the spec -/
+example : decodeTight {} (fun _ _ => none) ⟨8, 8, false, true, 7, 7, 3, 0, 3, 6⟩ ⟨3, 2⟩ [0x80, 0x5A, 1] =
+    some ([0x5A, 0x5A, 0x5A, 0x5A, 0x5A, 0x5A], [1]) := by decide
+example : decodeTight {} (fun _ _ => none) ⟨8, 8, false, true, 7, 7, 3, 0, 3, 6⟩ ⟨3, 2⟩
+    [0x40, 1, 1, 10, 20, 0b10100000, 0b01000000, 9] = some ([20, 10, 20, 10, 20, 10], [9]) := by decide
+
+/-- channel hypotheses of `client_cpixel_selection` for rgb888 (shifts 16/8/0) -/
+example : ChanOK 255 16 ∧ ChanOK 255 8 ∧ ChanOK 255 0 := ⟨⟨by decide, by decide⟩, ⟨by decide, by decide⟩, ⟨by decide, by decide⟩⟩
 
 /-- overlapping copy down-right on a 4×4 framebuffer: the guards of `copyrect_memmove` hold -/
 example : checkRect (FB.blank 4 4) 0 0 3 3 = true ∧ checkRect (FB.blank 4 4) 1 1 3 3 = true ∧
